@@ -5,7 +5,6 @@ from __future__ import annotations
 import os
 import typing as T
 
-from .. import mesonlib
 from .. import mlog
 from .common import cmake_is_debug
 
@@ -63,8 +62,18 @@ def parse_generator_expressions(
         col_pos = arg.find(',')
         if col_pos < 0:
             return '0'
-        else:
-            return '1' if mesonlib.version_compare(arg[:col_pos], '{}{}'.format(op, arg[col_pos + 1:])) else '0'
+
+        # CMake compares the integer components one by one, omitted components
+        # are zero and the version ends at the first other character
+        def components(vers: str) -> T.List[int]:
+            vers = vers[:len(vers) - len(vers.lstrip('0123456789.'))]
+            return [int(x or '0') for x in vers.split('.')]
+
+        lhs = components(arg[:col_pos])
+        rhs = components(arg[col_pos + 1:])
+        lhs += [0] * (len(rhs) - len(lhs))
+        rhs += [0] * (len(lhs) - len(rhs))
+        return '1' if {'<': lhs < rhs, '>': lhs > rhs, '=': lhs == rhs, '<=': lhs <= rhs, '>=': lhs >= rhs}[op] else '0'
 
     def target_property(arg: str) -> str:
         # We can't really support this since we don't have any context
